@@ -164,7 +164,9 @@ func C05(m *sipsp.PSIPMsg, buf []byte, start, ret int) string {
 			return fmt.Sprintf("first-line field %s outside the first line [%d,%d)", fstr(x.n, x.f), start, fe)
 		}
 	}
-	if m.Request() {
+	// which kind of line it is follows from which fields are reported (Request() is derived from
+	// the numeric status and calls a "000" status line a request - that is C08's business)
+	if fl.StatusCode.Len == 0 {
 		if !ordered(fl.Method, fl.URI, fl.Version) || fl.Method.Len == 0 || fl.URI.Len == 0 || fl.Version.Len == 0 {
 			return fmt.Sprintf("request line fields missing or out of order: %s %s %s", fstr("Method", fl.Method), fstr("URI", fl.URI), fstr("Version", fl.Version))
 		}
